@@ -79,6 +79,19 @@ CLAIMS["C14"] = (
     "DESIGN.md §2 C14",
 )
 
+CLAIMS["C01"] = (
+    "closed-form / operand analysis of the encode and syndrome forms, MRO enumeration of overrides, verified-return (must-pass-through) rule on the null-space helpers, index-set def-use agreement, dead-branch (T-str) and special-case lint, information-set dependence",
+    "Decides structural necessary conditions of 'encoder, G and H describe one code': forward() multiplies each block by the published generator_matrix mod 2 (right operand, no transpose, block size k) and calculate_syndrome by check_matrix transposed (block size n); every subclass override is enumerated through the MRO and must be an analysed conforming form; the systematic generator and the systematic forward() use one index computation (scatter to information/parity sets; gather-with-the-forward-permutation and value-keyed shortcuts are violations); check-matrix overrides lay I on the parity set and P^T on the information set and contain no tensor==string dead branch; every return of compute_null_space_matrix is an exact GF(2) elimination result or a verified object, never a constant fallback; the LDPC generator is cut at the rank; no class re-registers matrices that ignore its information set. Rank/null-space equality as numbers is not decided.",
+    "Trusted: the recognisers in props/c01.py and fecrules.py (unknown shapes -> exit 2), torch matmul/indexing semantics.",
+    "DESIGN.md §2 C01",
+)
+CLAIMS["C04"] = (
+    "verified-return rule on the right-inverse helper, operand analysis of inverse_encode, block-reshape rules (apply_blockwise and the Hamming / Reed-Muller overrides)",
+    "Decides structural necessary conditions of 'inverse(encode(m)) = m': every return of compute_right_pseudo_inverse is exact (identity-prefix selection under its own test, GF(2) elimination result with rank check) or verified on the returned object - rounded real pseudo-inverses, shape-keyed constants and fallbacks are violations; systematic encoders register the selection matrix of their information set after the parent constructor; inverse_encode multiplies blocks of n by generator_right_inverse mod 2 and returns the syndrome of the same input; extract_message and project_word delegate / select per block; apply_blockwise asserts divisibility, views (*lead, L//b, b) and flattens back to (*lead, -1); the Hamming and Reed-Muller inverse overrides keep (-1, n) rows and (*lead, -1) results and validate the length. The round trip as a value identity for arbitrary G is not decided.",
+    "Trusted: recognisers in props/c04.py (unknown shapes -> exit 2).",
+    "DESIGN.md §2 C04",
+)
+
 NOT_APPLICABLE = {
     "C09": "conjunction at run time of C02/C05/C06/C10/C11/C15 over component pairings and adversarial channels; its structural preconditions (stage order, LLR polarity, label agreement, block framing) are decided under C17, C15, C05, C20 - no additional clause is visible in the shape of the code (DESIGN.md §2 C09)",
 }
